@@ -64,6 +64,10 @@ type Event struct {
 	Seq  uint64
 	Name string
 	Do   func()
+	// Try, for datagram deliveries, attempts the delivery now and reports false,
+	// without any effect, if the socket's reader is not waiting (early delivery
+	// in yield mode).
+	Try func() bool
 }
 
 type evHeap []*Event
@@ -114,6 +118,10 @@ type World struct {
 	// the read loop") to every scheduling step of Settle, so that they interleave
 	// with goroutine steps in yield mode.
 	Extra func() []Action
+	// earlyLeft is how many network events may still fire before their time in this run
+	// (yield mode only).
+	earlyLeft int
+	bgPanic   string
 	// OnQuiescent runs invariants after every settle+route.
 	OnQuiescent func()
 
@@ -167,6 +175,12 @@ func NewWorld(ch *Chooser, yield bool) *World {
 			}
 		}
 		w.extBias = ch.Range(1, 6, "sched.extbias")
+		if ch.Chance(1, 2, "net.early") || os.Getenv("DSIM_EARLY_ALWAYS") != "" {
+			w.earlyLeft = ch.Range(1, 8, "net.early.n")
+			if os.Getenv("DSIM_EARLY_ALWAYS") != "" {
+				w.earlyLeft = 1000
+			}
+		}
 	}
 	return w
 }
@@ -212,6 +226,36 @@ func (w *World) At(t time.Time, name string, do func()) {
 }
 
 func (w *World) After(d time.Duration, name string, do func()) { w.At(time.Now().Add(d), name, do) }
+
+// AfterNet queues an external event that hands something to conn's reader: in
+// yield mode it may fire a little early, in the middle of whatever the system
+// is doing, provided the reader is waiting (early delivery).
+func (w *World) AfterNet(d time.Duration, name string, conn *SimConn, do func()) {
+	w.seq++
+	heap.Push(&w.q, &Event{At: time.Now().Add(d), Seq: w.seq, Name: name, Do: do, Try: func() bool {
+		if !conn.ReaderWaiting() {
+			return false
+		}
+		do()
+		return true
+	}})
+}
+
+// GoBackground runs f under scheduler control without registering it as an API
+// call that scenarios wait for (table maintenance and the like).
+func (w *World) GoBackground(name string, f func()) {
+	simrt.Go(name, func() {
+		defer func() {
+			if r := recover(); r != nil {
+				w.mu.Lock()
+				w.bgPanic = fmt.Sprintf("%s: %v\n%s", name, r, topFrames(string(debug.Stack())))
+				w.mu.Unlock()
+			}
+			w.Wake()
+		}()
+		f()
+	})
+}
 
 func (w *World) Pending() int { return w.q.Len() }
 
@@ -261,6 +305,13 @@ func (w *World) Next(actions []Action) bool {
 		actions[i].Do()
 		return true
 	}
+	if len(en) > 0 && w.earlyLeft > 0 {
+		// Network events due shortly may happen now, while goroutines are in the middle
+		// of something: latency is the network's to choose.
+		if ev := w.earlyCandidate(); ev != nil {
+			actions = append(actions[:len(actions):len(actions)], Action{Name: "early-" + ev.Name, Weight: 1, Do: func() { w.fireEarly(ev) }})
+		}
+	}
 	useExt := len(en) == 0
 	if !useExt && len(actions) > 0 {
 		useExt = w.Ch.Chance(w.extBias, 8, "sched.ext")
@@ -285,6 +336,46 @@ func (w *World) Next(actions []Action) bool {
 	}
 	w.Sched.Release(g)
 	return true
+}
+
+// EarlyWindow bounds how much sooner than scheduled a network event may fire.
+const EarlyWindow = 100 * time.Millisecond
+
+func (w *World) earlyCandidate() *Event {
+	var best *Event
+	lim := time.Now().Add(EarlyWindow)
+	for _, ev := range w.q {
+		if (ev.Try == nil && ev.Name != "arrive") || ev.At.After(lim) {
+			continue
+		}
+		if best == nil || ev.At.Before(best.At) || (ev.At.Equal(best.At) && ev.Seq < best.Seq) {
+			best = ev
+		}
+	}
+	return best
+}
+
+func (w *World) fireEarly(ev *Event) {
+	idx := -1
+	for i, e := range w.q {
+		if e == ev {
+			idx = i
+		}
+	}
+	if idx < 0 {
+		return
+	}
+	if ev.Try != nil {
+		if !ev.Try() {
+			return // the reader is busy: the datagram stays in flight
+		}
+	} else {
+		ev.Do()
+	}
+	heap.Remove(&w.q, idx)
+	w.earlyLeft--
+	w.Events++
+	w.FaultHit("early-" + ev.Name)
 }
 
 func (w *World) pickG(en []*simrt.G) *simrt.G {
@@ -466,6 +557,14 @@ func (w *World) Calls() []*Call { return w.calls }
 func (w *World) CheckPanics(class string) {
 	w.mu.Lock()
 	defer w.mu.Unlock()
+	if w.bgPanic != "" {
+		p := w.bgPanic
+		w.bgPanic = ""
+		w.mu.Unlock()
+		w.Violate(class, "panic in background goroutine %s", p)
+		w.mu.Lock()
+		return
+	}
 	for _, c := range w.calls {
 		if c.Panic != "" {
 			p := c.Panic
@@ -518,16 +617,17 @@ type Write struct {
 type WriteFault func(i int, b []byte, to net.Addr) (fail bool, short bool)
 
 type SimConn struct {
-	W      *World
-	Idx    int
-	Local  *net.UDPAddr
-	inbox  chan inPkt
-	closed chan struct{}
-	once   sync.Once
-	mu     sync.Mutex
-	out    []*Write
-	nw     int
-	Fault  WriteFault
+	W       *World
+	Idx     int
+	Local   *net.UDPAddr
+	inbox   chan inPkt
+	readers atomic.Int32 // goroutines blocked in ReadFrom
+	closed  chan struct{}
+	once    sync.Once
+	mu      sync.Mutex
+	out     []*Write
+	nw      int
+	Fault   WriteFault
 	// Park decides whether the i-th write blocks inside WriteTo until the driver
 	// releases it (the datagram is on the wire, the call has not returned).
 	Park func(i int, b []byte, to net.Addr) bool
@@ -546,7 +646,11 @@ func (w *World) NewConn(local *net.UDPAddr) *SimConn {
 	return c
 }
 
+func (c *SimConn) ReaderWaiting() bool { return c.readers.Load() > 0 }
+
 func (c *SimConn) ReadFrom(b []byte) (int, net.Addr, error) {
+	c.readers.Add(1)
+	defer c.readers.Add(-1)
 	select {
 	case p := <-c.inbox:
 		n := copy(b, p.b)
@@ -919,14 +1023,24 @@ func (w *World) Send(c *SimConn, from *net.UDPAddr, b []byte, label string) {
 }
 
 func (w *World) SendAfter(c *SimConn, from *net.UDPAddr, b []byte, lat time.Duration) {
-	w.After(lat, "deliver", func() {
+	logIt := func(ok bool, how string) {
 		d, _ := benc.DecodeDict(b)
-		ok := c.Inject(from, b)
-		w.Logf("deliver %s->c%d %s ok=%v", from, c.Idx, w.Summ(d, b, from.String(), false), ok)
+		w.Logf("deliver%s %s->c%d %s ok=%v", how, from, c.Idx, w.Summ(d, b, from.String(), false), ok)
 		if DebugPayload {
 			w.Logf("  payload %q", b)
 		}
-	})
+	}
+	w.seq++
+	heap.Push(&w.q, &Event{At: time.Now().Add(lat), Seq: w.seq, Name: "deliver",
+		Do: func() { logIt(c.Inject(from, b), "") },
+		Try: func() bool {
+			if !c.ReaderWaiting() {
+				return false
+			}
+			ok := c.Inject(from, b)
+			logIt(ok, "(early)")
+			return true
+		}})
 }
 
 // ---------------------------------------------------------------- peers
